@@ -63,10 +63,12 @@ class FortranRegularExpressions:
     END_PROG: Pattern = compile(r"PROGRAM", I)
     INT: Pattern = compile(r"[ ]*(ABSTRACT)?[ ]*INTERFACE[ ]*(\w*)", I)
     END_INT: Pattern = compile(r"INTERFACE", I)
+    #: END alone, or END with the keyword of what it closes (and then a name):
+    #: `end file 10` is an ENDFILE statement and closes nothing
     END_WORD: Pattern = compile(
-        r"[ ]*END[ ]*(DO|WHERE|IF|BLOCK|CRITICAL|ASSOCIATE|SELECT"
+        r"[ ]*END[ ]*(?:(DO|WHERE|IF|BLOCK|CRITICAL|ASSOCIATE|SELECT"
         r"|TYPE|ENUM|MODULE|SUBMODULE|PROGRAM|INTERFACE"
-        r"|SUBROUTINE|FUNCTION|PROCEDURE|FORALL)?([ ]+(?!\W)|$)",
+        r"|SUBROUTINE|FUNCTION|PROCEDURE|FORALL)([ ]+(?!\W)|$)|$)",
         I,
     )
     TYPE_DEF: Pattern = compile(r"[ ]*(TYPE)[, :]+", I)
